@@ -171,3 +171,62 @@ def run_oracle(rep, pid, name, inputs, judge, in_domain=lambda x: True, known_si
     rep.count(f'{name}: judged', n)
     rep.extra.setdefault('oracles', []).append(dict(name=name, judged=n, failing=fails))
     return fails
+
+
+# ---------------------------------------------------------------- evaluator correspondence (shared by C07, C09, C10, C11, C13, C14)
+
+class Hang(BaseException):
+    pass
+
+
+def with_watchdog(fn, seconds=3.0):
+    """run fn() in the main thread; a pure-Python endless loop is interrupted by SIGALRM"""
+    import signal
+
+    def handler(signum, frame):
+        raise Hang()
+    old = signal.signal(signal.SIGALRM, handler)
+    signal.setitimer(signal.ITIMER_REAL, seconds)
+    try:
+        return fn()
+    finally:
+        signal.setitimer(signal.ITIMER_REAL, 0)
+        signal.signal(signal.SIGALRM, old)
+
+
+def eval_t3(rep, rng, n, gen_kw, label='eval', with_safes=False, extra=()):
+    """sampled correspondence Model.Eval.config vs Config(tree); returns usable cases"""
+    from .. import evalcorr
+    cases, skipped, hangs = [], 0, []
+    todo = [([t for t in e], None, None) for e in extra]
+    for i in range(n):
+        docs = evalcorr.gen_eval_history(rng, **gen_kw)
+        texts = [gen.render(d) for d in docs]
+        safes = [rng.random() < 0.6 for _ in texts] if (with_safes and rng.random() < 0.4) else None
+        todo.append((texts, safes, docs))
+    for texts, safes, docs in todo:
+        try:
+            r = with_watchdog(lambda: evalcorr.run_case(texts, safes))
+        except Hang:
+            hangs.append(dict(texts=texts, safes=safes))
+            continue
+        if not r['ok']:
+            skipped += 1
+            continue
+        r['docs'] = docs
+        cases.append(r)
+        rep.count(f'{label} outcome={r["kind"]}')
+    bad, errors, wall, cmd = common.run_case_files(label, evalcorr.HEADER, [c['term'] for c in cases], evalcorr.CHECK)
+    rep.checker_cmds.append(cmd)
+    rep.count(f'{label} skipped (merge error / unsupported)', skipped)
+    ok = not bad and not errors and not hangs
+    detail = ''
+    if hangs:
+        detail = 'evaluation did not terminate within 3 s: ' + json.dumps(hangs[0])
+    elif bad:
+        detail = json.dumps(dict(disagreements=len(bad), first=[dict(texts=cases[i]['texts'], safes=cases[i]['safes'], impl=cases[i]['kind'], err=cases[i].get('error')) for i in bad[:3]]))
+    elif errors:
+        detail = errors[0]['log'][-800:]
+    rep.oblige(f'T3 correspondence Model.Eval.config = Config(tree) on {len(cases)} generated configs (value with object identities, order of calls, error class)', ok, detail)
+    rep.extra.setdefault('correspondence', []).append(dict(label=label, cases=len(cases), disagreements=len(bad), hangs=len(hangs), coq_wall_s=round(wall, 1)))
+    return cases, hangs
